@@ -10,7 +10,13 @@ import numpy as np
 from harness import curves, monitor, numeric, par
 
 
+_WIDE = [False]     # set per recorded item: x-translated variants are judged with a wider noise band (see _record)
+
+
 def _ranks(v):
+    if _WIDE[0]:
+        fin = [abs(float(a)) for a in v if not math.isnan(float(a)) and not math.isinf(float(a))]
+        return numeric.ranks(v, rel=1e-6, ab=1e-7 * (max(fin) if fin else 1.0) + 1e-12)
     return numeric.ranks(v)
 
 
@@ -66,6 +72,12 @@ def _record(item):
     x, y = P[:, 0], P[:, 1]            # criteria are computed from the float64 values
     n = len(P)
     PC = P.astype(np.int64) if cid.startswith("i") else P      # what the detector is called with
+    _WIDE[0] = cid.startswith("o")
+    if cid.startswith("o"):
+        # the same curve far to the right (2^20: abscissae stay exactly representable).  Every criterion is built from x
+        # differences, so the optimiser set is the one of the untranslated curve (computed below from P); the detector's
+        # own rounding grows with the offset, hence the wider noise band.  Exposes relative comparisons of abscissae.
+        PC = P + np.array([float(2 ** 20), 0.0])
     xc, yc = PC[:, 0], PC[:, 1]
     out = []
     meta = {"points": P.tolist(), "what": what}
@@ -172,6 +184,9 @@ def inputs(ctx):
             k += 1
             if np.all(P == np.floor(P)) and np.all(np.abs(P) < 2 ** 40) and rng.random() < 0.6:
                 items.append(("i%d" % k, P.tolist(), w))          # the same integral curve as an int64 array
+                k += 1
+            elif np.all(P[:, 0] == np.floor(P[:, 0])) and np.all(np.abs(P[:, 0]) < 2 ** 30) and rng.random() < 0.25:
+                items.append(("o%d" % k, P.tolist(), w))          # the same curve translated far to the right
                 k += 1
     return items
 
